@@ -688,9 +688,14 @@ def static_tie(cm, chk, pid, repo):
             info["translated"] += [w + " (loop nest, order-loop body)" for w in w2]
         else:
             import translate2
-            if pid not in translate2.STATIC:
-                return None
-            text, info["translated"] = translate2.STATIC[pid](repo)
+            import importlib
+            fn = translate2.STATIC.get(pid)
+            if fn is None:
+                try:        # per-property translators: harness/translate_cXX.py exporting static(repo) -> (coq text, [what])
+                    fn = importlib.import_module("translate_" + pid.lower()).static
+                except ImportError:
+                    return None
+            text, info["translated"] = fn(repo)
     except Untranslatable as e:
         info["status"] = "untranslatable: %s" % e
         chk.violation("static_tie:untranslatable", "the source of a translated kernel left the supported fragment (%s): the generated model can no "
